@@ -309,13 +309,33 @@ Section EvalProofs.
 
   (* ---------- C06 / C07 at program level ---------- *)
 
+  (* the state in which the program's first expression is evaluated: Runtime::resolve has read the
+     event root, which consumed one slot of the target's fault schedule *)
+  Definition rooted (s : state) : state :=
+    mkState (vars s) (Expr.ev s) (md s) (tlog s) (snd (pop_fault s)).
+  Definition root_ok (s : state) : Prop := fst (pop_fault s) = false.
+
+  Lemma run_rooted es s : root_ok s ->
+    run F binop es s =
+    match ev (EBlock es) (rooted s) with
+    | (inl v, s') => (Success v, s')
+    | (inr (Return v), s') => (Success v, s')
+    | (inr (Abort m), s') => (Aborted m, s')
+    | (inr Error, s') => (Failed, s')
+    | (inr Panic, s') => (Panicked, s')
+    end.
+  Proof.
+    unfold root_ok, run, rooted. destruct (pop_fault s) as [bad fs]. cbn [fst snd]. intros ->. reflexivity.
+  Qed.
+
   Theorem return_ends_program pre C post e s s0 s1 v s2 :
-    seq pre s = Some s0 -> reach C s0 = Some s1 -> ev e s1 = (inl v, s2) ->
+    root_ok s ->
+    seq pre (rooted s) = Some s0 -> reach C s0 = Some s1 -> ev e s1 = (inl v, s2) ->
     run F binop (pre ++ plug C (EReturn e) :: post) s = (Success v, s2).
   Proof.
-    intros Hp Hr He. unfold run.
-    assert (H : ev (EBlock (pre ++ plug C (EReturn e) :: post)) s = (inr (Return v), s2)).
-    { apply (ctl_propagates (CBlock pre C post) (EReturn e) s s1 (Return v) s2).
+    intros Hroot Hp Hr He. rewrite (run_rooted _ _ Hroot).
+    assert (H : ev (EBlock (pre ++ plug C (EReturn e) :: post)) (rooted s) = (inr (Return v), s2)).
+    { apply (ctl_propagates (CBlock pre C post) (EReturn e) (rooted s) s1 (Return v) s2).
       - cbn [reach]. rewrite Hp. exact Hr.
       - cbn [eval]. rewrite He. reflexivity.
       - reflexivity. }
@@ -323,16 +343,17 @@ Section EvalProofs.
   Qed.
 
   Theorem abort_ends_program pre C post (m : option expr) s s0 s1 msg s2 :
-    seq pre s = Some s0 -> reach C s0 = Some s1 ->
+    root_ok s ->
+    seq pre (rooted s) = Some s0 -> reach C s0 = Some s1 ->
     match m with
     | None => msg = None /\ s2 = s1
     | Some me => exists b, ev me s1 = (inl (VBytes b), s2) /\ msg = Some b
     end ->
     run F binop (pre ++ plug C (EAbort m) :: post) s = (Aborted msg, s2).
   Proof.
-    intros Hp Hr Hm. unfold run.
-    assert (H : ev (EBlock (pre ++ plug C (EAbort m) :: post)) s = (inr (Abort msg), s2)).
-    { apply (ctl_propagates (CBlock pre C post) (EAbort m) s s1 (Abort msg) s2).
+    intros Hroot Hp Hr Hm. rewrite (run_rooted _ _ Hroot).
+    assert (H : ev (EBlock (pre ++ plug C (EAbort m) :: post)) (rooted s) = (inr (Abort msg), s2)).
+    { apply (ctl_propagates (CBlock pre C post) (EAbort m) (rooted s) s1 (Abort msg) s2).
       - cbn [reach]. rewrite Hp. exact Hr.
       - destruct m as [me|].
         + destruct Hm as [b [Hb ->]]. cbn [eval]. rewrite Hb. reflexivity.
